@@ -126,6 +126,7 @@ def expected_attrs(c, doc):
         if a["name"] not in exp and a["mode"] in ("FIXED", "DEFAULT"):
             exp[a["name"]] = a["value"]
     ns = {a["name"][6:]: a["value"] for a in c["attrs"] if a["name"].startswith("xmlns:")}
+    ns["xml"] = "http://www.w3.org/XML/1998/namespace"       # bound by definition
     out = {}
     for k, v in exp.items():
         if k.startswith("xmlns"):
